@@ -42,15 +42,27 @@ func extractPools(repo string, o *leanOut) {
 						}
 					}
 				case *ast.FuncDecl:
-					if x.Name.Name != "reset" || x.Recv == nil || len(x.Recv.List) != 1 || x.Body == nil {
-						continue
-					}
-					if exprText(x.Recv.List[0].Type) != "*"+sp.typ {
+					if x.Body == nil {
 						continue
 					}
 					recv := ""
-					if len(x.Recv.List[0].Names) == 1 {
-						recv = x.Recv.List[0].Names[0].Name
+					switch {
+					case x.Name.Name == "reset" && x.Recv != nil && len(x.Recv.List) == 1 &&
+						exprText(x.Recv.List[0].Type) == "*"+sp.typ:
+						if len(x.Recv.List[0].Names) == 1 {
+							recv = x.Recv.List[0].Names[0].Name
+						}
+					case x.Recv == nil && len(x.Name.Name) > 7 && x.Name.Name[:7] == "release" &&
+						len(x.Type.Params.List) == 1 && exprText(x.Type.Params.List[0].Type) == "*"+sp.typ:
+						// the release function of the pool: what it clears besides calling reset()
+						if len(x.Type.Params.List[0].Names) == 1 {
+							recv = x.Type.Params.List[0].Names[0].Name
+						}
+					default:
+						continue
+					}
+					if recv == "" {
+						continue
 					}
 					ast.Inspect(x.Body, func(n ast.Node) bool {
 						as, ok := n.(*ast.AssignStmt)
